@@ -154,9 +154,8 @@ def op_dot(receiver, expr, context, engine):
     func = getattr(receiver, name)
     args, kwargs = runner.translate_args(False, expr.args, {})
     args = tuple(arg(utils.NO_VALUE, context, engine) for arg in args)
-    for key, value in kwargs.items():
-        kwargs[arg_mappings.get(key, key)] = value(
-            utils.NO_VALUE, context, engine)
+    kwargs = {arg_mappings.get(key, key): value(
+        utils.NO_VALUE, context, engine) for key, value in kwargs.items()}
     res = func(*args, **kwargs)
     _auto_yaqlize(res, settings)
     return res
